@@ -2,6 +2,7 @@ package remote
 
 import (
 	"context"
+	"crypto/tls"
 	"errors"
 	"fmt"
 	"io"
@@ -12,6 +13,7 @@ import (
 	"strings"
 	"sync"
 	"sync/atomic"
+	"syscall"
 	"testing"
 	"time"
 
@@ -19,6 +21,7 @@ import (
 	"github.com/emersion/go-smtp"
 	"github.com/foxcpp/go-mockdns"
 	"github.com/foxcpp/maddy/framework/buffer"
+	"github.com/foxcpp/maddy/framework/exterrors"
 	"github.com/foxcpp/maddy/framework/module"
 	"github.com/foxcpp/maddy/internal/limits"
 	"github.com/foxcpp/maddy/internal/verifshim/vh"
@@ -363,6 +366,7 @@ var c11FailNames = map[string]int32{"rej": c11Rej, "421": c11F421, "421c": c11F4
 
 type c11Backend struct {
 	mailMode   atomic.Int32
+	mailOld    atomic.Bool // mailMode applies only to sessions that had a transaction before (reused sessions)
 	rejectRcpt atomic.Bool
 	dataMode   atomic.Int32
 	connMode   atomic.Int32 // c11Drop / c11Tmo: the next dialled connection is dead before the greeting
@@ -370,13 +374,16 @@ type c11Backend struct {
 }
 
 type c11Session struct {
-	be *c11Backend
-	c  *smtp.Conn
+	be    *c11Backend
+	c     *smtp.Conn
+	mails int // MAIL commands accepted in this session
 }
 
-func (be *c11Backend) NewSession(c *smtp.Conn) (smtp.Session, error) { return &c11Session{be, c}, nil }
-func (s *c11Session) Reset()                                         {}
-func (s *c11Session) Logout() error                                  { return nil }
+func (be *c11Backend) NewSession(c *smtp.Conn) (smtp.Session, error) {
+	return &c11Session{be: be, c: c}, nil
+}
+func (s *c11Session) Reset()        {}
+func (s *c11Session) Logout() error { return nil }
 
 // fail answers the current command the way `mode` says. c11Tmo never gets here (the client side swallows the
 // command), c11OK returns nil.
@@ -400,7 +407,15 @@ func (s *c11Session) fail(mode int32, code int, ec smtp.EnhancedCode, what strin
 
 func (s *c11Session) Mail(from string, opts *smtp.MailOptions) error {
 	s.be.mails.Add(1)
-	return s.fail(s.be.mailMode.Load(), 550, smtp.EnhancedCode{5, 7, 1}, "sender")
+	mode := s.be.mailMode.Load()
+	if s.be.mailOld.Load() && s.mails == 0 {
+		// the next hop ends REUSED sessions only (a limit of transactions per session): a new session is served
+		mode = c11OK
+	}
+	if mode == c11OK {
+		s.mails++
+	}
+	return s.fail(mode, 550, smtp.EnhancedCode{5, 7, 1}, "sender")
 }
 
 // c11RcptMode: local part "rcpt<kind>" (kind as in c11FailNames) scripts the answer to that RCPT.
@@ -440,14 +455,23 @@ type c11Conn struct {
 	net.Conn
 	be   *c11Backend
 	dead atomic.Int32 // 0 alive, c11Tmo: reads time out, c11Drop: reads see EOF
+	w    *c11World
+	born int64       // c11World.opSeq when the connection was dialled
+	rset atomic.Bool // RSET sent on a connection of an earlier command, answer pending
 }
 
 func (c *c11Conn) Write(p []byte) (int, error) {
+	old := c.w != nil && c.born < c.w.opSeq.Load()
+	if old && strings.HasPrefix(string(p), "RSET") {
+		// a connection dialled during an EARLIER command is examined by the pool (mxConn.Usable) before it is
+		// handed out; it is handed out when the answer is positive (Read)
+		c.rset.Store(true)
+	}
 	if c.dead.Load() == 0 {
 		line := string(p)
 		switch {
 		case strings.HasPrefix(line, "RCPT TO:<rcpttmo@"),
-			strings.HasPrefix(line, "MAIL FROM:") && c.be.mailMode.Load() == c11Tmo,
+			strings.HasPrefix(line, "MAIL FROM:") && c.be.mailMode.Load() == c11Tmo && (old || !c.be.mailOld.Load()),
 			strings.HasPrefix(line, "DATA\r\n") && c.be.dataMode.Load() == c11Tmo:
 			c.dead.Store(c11Tmo)
 		}
@@ -465,7 +489,11 @@ func (c *c11Conn) Read(p []byte) (int, error) {
 	case c11Drop:
 		return 0, io.EOF
 	}
-	return c.Conn.Read(p)
+	n, err := c.Conn.Read(p)
+	if n > 0 && c.rset.Swap(false) && p[0] == '2' {
+		c.w.oldUsed.Store(true)
+	}
+	return n, err
 }
 
 var c11SrvOnce sync.Once
@@ -517,19 +545,150 @@ func c11Zones() map[string]mockdns.Zone {
 	return z
 }
 
+// ---- the MX world: what a NEW connection meets (strengthening round 9) ----
+//
+// The state of the world outside the target can change between (and inside) deliveries, while connections that
+// were opened earlier sit in the pool: ok | nomx (the MX lookup fails) | noa (the MX hosts have no address any
+// more) | nullmx (the domain publishes a null MX) | refuse (connect refused) | greetdrop / greettmo (the connection dies before the greeting) | policy (a
+// TLS policy refuses the connection: CheckConn) | mxpolicy (an MX policy refuses every MX: CheckMX). The last
+// two do not apply to deliveries with "TLS-Required: No" (no policies are run for them).
+var c11WorldKinds = []string{"ok", "nomx", "noa", "refuse", "greetdrop", "greettmo", "policy", "mxpolicy", "nullmx"}
+
+type c11World struct {
+	kind    atomic.Int32 // index into c11WorldKinds
+	full    *mockdns.Resolver
+	noMX    *mockdns.Resolver
+	noA     *mockdns.Resolver
+	nullMX  *mockdns.Resolver
+	opSeq   atomic.Int64
+	oldUsed atomic.Bool
+	dials   atomic.Int64
+}
+
+func (w *c11World) Kind() string { return c11WorldKinds[w.kind.Load()] }
+
+func (w *c11World) Set(kind string) bool {
+	for i, k := range c11WorldKinds {
+		if k == kind {
+			w.kind.Store(int32(i))
+			return true
+		}
+	}
+	return false
+}
+
+func (w *c11World) res() *mockdns.Resolver {
+	switch w.Kind() {
+	case "nomx":
+		return w.noMX
+	case "noa":
+		return w.noA
+	case "nullmx":
+		return w.nullMX
+	}
+	return w.full
+}
+
+// c11Res is the resolver of the target: the zones of the world as it is now.
+type c11Res struct{ w *c11World }
+
+func (r c11Res) LookupAddr(ctx context.Context, addr string) ([]string, error) {
+	return r.w.res().LookupAddr(ctx, addr)
+}
+func (r c11Res) LookupHost(ctx context.Context, host string) ([]string, error) {
+	return r.w.res().LookupHost(ctx, host)
+}
+func (r c11Res) LookupMX(ctx context.Context, name string) ([]*net.MX, error) {
+	return r.w.res().LookupMX(ctx, name)
+}
+func (r c11Res) LookupTXT(ctx context.Context, name string) ([]string, error) {
+	return r.w.res().LookupTXT(ctx, name)
+}
+func (r c11Res) LookupIPAddr(ctx context.Context, host string) ([]net.IPAddr, error) {
+	return r.w.res().LookupIPAddr(ctx, host)
+}
+
+// c11Policy: a scripted MX authentication policy (passes everything while the world allows it).
+type c11Policy struct{ w *c11World }
+
+func (p *c11Policy) Start(*module.MsgMetadata) module.DeliveryMXAuthPolicy {
+	return c11DelivPolicy{p.w}
+}
+func (p *c11Policy) Weight() int { return 10 }
+
+type c11DelivPolicy struct{ w *c11World }
+
+func (c11DelivPolicy) PrepareDomain(context.Context, string) {}
+func (c11DelivPolicy) PrepareConn(context.Context, string)   {}
+func (c11DelivPolicy) Reset(*module.MsgMetadata)             {}
+func (p c11DelivPolicy) CheckMX(_ context.Context, _ module.MXLevel, _, _ string, _ bool) (module.MXLevel, error) {
+	if p.w.Kind() == "mxpolicy" {
+		return module.MXNone, &exterrors.SMTPError{Code: 550, EnhancedCode: exterrors.EnhancedCode{5, 7, 0},
+			Message: "c11: the MX is not permitted by the policy"}
+	}
+	return module.MXNone, nil
+}
+func (p c11DelivPolicy) CheckConn(_ context.Context, _ module.MXLevel, _ module.TLSLevel, _, _ string, _ tls.ConnectionState) (module.TLSLevel, error) {
+	if p.w.Kind() == "policy" {
+		return module.TLSNone, &exterrors.SMTPError{Code: 451, EnhancedCode: exterrors.EnhancedCode{4, 7, 1},
+			Message: "c11: TLS is required by the policy"}
+	}
+	return module.TLSNone, nil
+}
+
+var c11Worlds sync.Map // *Target -> *c11World
+
+func c11W(tgt *Target) *c11World {
+	w, _ := c11Worlds.Load(tgt)
+	return w.(*c11World)
+}
+
+var c11ZoneOnce sync.Once
+var c11ZFull, c11ZNoA, c11ZNull map[string]mockdns.Zone
+
 func c11Target(t *testing.T, g *limits.Group) *Target {
-	tgt := testTarget(t, c11Zones(), nil, nil)
+	c11ZoneOnce.Do(func() {
+		c11ZFull = c11Zones()
+		c11ZNoA, c11ZNull = map[string]mockdns.Zone{}, map[string]mockdns.Zone{}
+		for name, z := range c11ZFull {
+			if len(z.MX) != 0 {
+				c11ZNoA[name] = mockdns.Zone{MX: z.MX}
+				c11ZNull[name] = mockdns.Zone{MX: []net.MX{{Host: ".", Pref: 0}}}
+			}
+		}
+	})
+	w := &c11World{
+		full:   &mockdns.Resolver{Zones: c11ZFull},
+		noMX:   &mockdns.Resolver{Zones: map[string]mockdns.Zone{}},
+		noA:    &mockdns.Resolver{Zones: c11ZNoA},
+		nullMX: &mockdns.Resolver{Zones: c11ZNull},
+	}
+	tgt := testTarget(t, c11ZFull, nil, []module.MXAuthPolicy{&c11Policy{w}})
+	c11Worlds.Store(tgt, w)
+	t.Cleanup(func() { c11Worlds.Delete(tgt) })
+	tgt.resolver = c11Res{w}
 	tgt.limits = g
 	tgt.allowSecOverride = true
 	be := c11Server(t)
-	dial := tgt.dialer
 	tgt.dialer = func(ctx context.Context, network, addr string) (net.Conn, error) {
-		nc, err := dial(ctx, network, addr)
+		w.dials.Add(1)
+		kind := w.Kind()
+		if kind == "refuse" {
+			return nil, &net.OpError{Op: "dial", Net: network, Err: syscall.ECONNREFUSED}
+		}
+		nc, err := w.res().DialContext(ctx, network, addr)
 		if err != nil {
 			return nil, err
 		}
-		c := &c11Conn{Conn: nc, be: be}
-		if m := be.connMode.Load(); m == c11Drop || m == c11Tmo {
+		c := &c11Conn{Conn: nc, be: be, w: w, born: w.opSeq.Load()}
+		m := be.connMode.Load()
+		switch kind {
+		case "greetdrop":
+			m = c11Drop
+		case "greettmo":
+			m = c11Tmo
+		}
+		if m == c11Drop || m == c11Tmo {
 			c.dead.Store(m)
 			if m == c11Drop {
 				nc.Close()
@@ -549,6 +708,7 @@ type c11Deliv struct {
 	dom   int
 	dests map[int]bool
 	rt    bool // REQUIRETLS delivery
+	so    bool // "TLS-Required: No" honoured: no policies
 }
 
 type c11RemCase struct {
@@ -557,6 +717,7 @@ type c11RemCase struct {
 	g    *limits.Group
 	tgt  *Target
 	be   *c11Backend
+	w    *c11World
 	ds   map[int]*c11Deliv
 	hold [4]map[int]int
 	ops  []string
@@ -573,6 +734,21 @@ func (c *c11RemCase) opLine() string {
 	}
 	toks := append(c11rKeys.Tokens(addrs), c11Dk.Tokens(c11OpDoms(c.ops))...)
 	return "C11 rem " + c.cfg.String() + " " + strings.Join(append(toks, c.ops...), " ")
+}
+
+// newConnOK: can connectionForDomain make a NEW connection for the delivery to the domain in the world as it
+// is now (MX lookup, address, connect, greeting, policies, REQUIRETLS level checks)?
+func (c *c11RemCase) newConnOK(dl *c11Deliv, dd int) bool {
+	if dl.rt || !vlim.DomReachable(dd) {
+		return false
+	}
+	switch c.w.Kind() {
+	case "ok":
+		return true
+	case "policy", "mxpolicy":
+		return dl.so
+	}
+	return false
 }
 
 func (c *c11RemCase) bump(sc, k, d int) {
@@ -617,6 +793,22 @@ func c11rNetTimeout(err error) bool {
 // c11Note: the optional 6th field of an `a` op → (mail mode when mo = 0, local part of the recipient, conn mode
 // when co = 0 on a reachable domain). ok = false: unknown note.
 func c11Note(note string) (mail int32, local string, conn int32, ok bool) {
+	mail, local, conn, _, ok = c11Note2(note)
+	return
+}
+
+// c11Note2: also "omail<kind>" = the next hop ends the session at MAIL only when it is a REUSED one (it had a
+// transaction before: a connection out of the pool); MAIL on a new session is accepted.
+func c11Note2(note string) (mail int32, local string, conn int32, oldOnly, ok bool) {
+	if strings.HasPrefix(note, "omail") {
+		mail, local, conn, ok = c11Note1(note[1:])
+		return mail, local, conn, true, ok && note != "omailrej"
+	}
+	mail, local, conn, ok = c11Note1(note)
+	return mail, local, conn, false, ok
+}
+
+func c11Note1(note string) (mail int32, local string, conn int32, ok bool) {
 	mail, local = c11Rej, "rcpt"
 	switch {
 	case note == "":
@@ -700,49 +892,84 @@ func (c *c11RemCase) exec(op string) bool {
 		}
 		c.out.Stat("rem:start:" + flag + ":" + c11rErr(err, cancelled))
 		if err == nil {
-			c.ds[id] = &c11Deliv{d: d, ip: ip, dom: dom, dests: map[int]bool{}, rt: flag == "rt"}
+			c.ds[id] = &c11Deliv{d: d, ip: ip, dom: dom, dests: map[int]bool{}, rt: flag == "rt", so: flag == "so"}
 			c.bump(0, 0, 1)
 			c.bump(1, vlim.MonID(ip), 1)
 			c.bump(2, dom, 1)
 		}
+	case "w":
+		// w.kind: the MX world from now on (what a NEW connection meets); connections opened earlier stay
+		// where they are (in their delivery, in the pool)
+		if len(f) != 2 || !c.w.Set(f[1]) {
+			return false
+		}
+		c.out.Stat("rem:world:" + f[1])
 	case "a":
 		dl := c.ds[id]
 		if dl == nil {
 			return false
 		}
 		dd, _ := strconv.Atoi(f[2])
+		// a last field "P" is an observation (below), not an input
+		if f[len(f)-1] == "P" && len(f) > 5 {
+			f = f[:len(f)-1]
+		}
+		if len(f) > 6 {
+			return false
+		}
 		note := ""
 		if len(f) > 5 {
 			note = f[5]
 		}
-		mail, local, connMode, known := c11Note(note)
+		mail, local, connMode, oldOnly, known := c11Note2(note)
 		if !known || len(f) < 5 {
 			return false
 		}
 		if f[4] != "0" {
 			mail = c11OK
 		}
+		// co = a NEW connection to the domain can be made at this moment: it has to agree with the world
 		if f[3] != "0" {
 			connMode = c11OK
 		}
+		if (f[3] != "0") != (c.newConnOK(dl, dd) && connMode == c11OK) {
+			return false
+		}
 		c.be.mailMode.Store(mail)
+		c.be.mailOld.Store(oldOnly)
 		c.be.connMode.Store(connMode)
 		c.be.rejectRcpt.Store(note == "rcptrej")
 		connAge := "fresh"
 		if rd, ok := dl.d.(*remoteDelivery); ok && rd.connections[c11rDom(dd)] != nil {
 			connAge = "reused"
 		}
+		c.w.opSeq.Add(1)
+		c.w.oldUsed.Store(false)
 		err, cancelled, p := vlim.RunCtx(context.Background(), func(ctx context.Context) error {
 			return dl.d.AddRcpt(ctx, local+"@"+c11rDom(dd), smtp.RcptOptions{})
 		})
 		c.be.connMode.Store(c11OK)
+		c.be.mailOld.Store(false)
 		if panicked(p, "AddRcpt") {
 			return false
 		}
 		c.out.Stat("rem:addrcpt:" + c11rErr(err, cancelled))
-		if rd, ok := dl.d.(*remoteDelivery); ok && connAge == "fresh" && rd.connections[c11rDom(dd)] != nil &&
-			rd.connections[c11rDom(dd)].transactions > 0 {
+		// observed: the pool handed out a usable connection of an earlier delivery (it was sent RSET by the
+		// pool's usability test / MAIL by connectionForDomain) and the delivery is not a REQUIRETLS one
+		// (those ignore what the pool hands out)
+		pooled := connAge == "fresh" && !dl.rt && c.w.oldUsed.Load()
+		op = strings.Join(f, ".")
+		if pooled {
 			connAge = "pooled"
+			op += ".P"
+			mn := "mailok"
+			if f[4] == "0" {
+				mn = "mailrej"
+				if strings.HasPrefix(note, "mail") || strings.HasPrefix(note, "omail") {
+					mn = note
+				}
+			}
+			c.out.Stat("rem:pooled:" + mn + ":world-" + c.w.Kind() + ":" + c11rErr(err, cancelled))
 		}
 		if note == "" && f[3] != "0" && f[4] != "0" {
 			c.out.Stat("rem:addrcpt-dom:" + vlim.DomClass(dd) + ":" + connAge + ":" + c11rErr(err, cancelled))
@@ -832,7 +1059,7 @@ func c11RemRun(out *vh.Out, t *testing.T, cfg vlim.Cfg, r *vh.Rng, fixed []strin
 	defer vlim.CloseGroup(g)
 	tgt := c11Target(t, g)
 	defer tgt.Close()
-	c := &c11RemCase{out: out, cfg: cfg, g: g, tgt: tgt, be: be, ds: map[int]*c11Deliv{}}
+	c := &c11RemCase{out: out, cfg: cfg, g: g, tgt: tgt, be: be, w: c11W(tgt), ds: map[int]*c11Deliv{}}
 	ok := true
 	if fixed != nil {
 		fixed = vlim.StripTokens(fixed)
@@ -873,13 +1100,38 @@ func c11RemRun(out *vh.Out, t *testing.T, cfg vlim.Cfg, r *vh.Rng, fixed []strin
 			lossy, pool = 0, []int{2, 10}[r.Intn(2)]
 			out.Stat("rem:siblings")
 		}
+		// how often the MX world changes (what a NEW connection meets: DNS answers gone, connect refused, dead
+		// before the greeting, policy failure) while earlier connections sit in the pool / in their deliveries
+		worldPr := []int{0, 4, 10}[r.Intn(3)]
+		const mailFailPr = 25
+		commitPr := 0
+		refresh := false
+		if r.Chance(25) {
+			// "refresh" cases: a pool, a next hop that ends reused sessions at MAIL (421 / drop / time-out: a
+			// transaction limit per session, idle sessions dropped) and an MX world that keeps changing:
+			// whatever the target does about a pooled connection that is refused meets every state of the world
+			refresh = true
+			if pool == 0 {
+				pool = []int{2, 10}[r.Intn(2)]
+			}
+			if lossy < 40 {
+				lossy = []int{40, 70}[r.Intn(2)]
+			}
+			if nDom > 2 {
+				nDom = 2
+			}
+			commitPr = 60
+			out.Stat("rem:refresh")
+		}
 		if pool != 0 {
 			ok = c.exec(fmt.Sprintf("p.%d", pool))
 		}
 		loss := func() string { return r.Pick("421", "421c", "drop", "tmo") }
 		end := func() string {
 			how := r.Pick("abort", "commit", "bodyfail")
-			if r.Chance(lossy) {
+			if r.Chance(commitPr) {
+				how = r.Pick("abort", "commit")
+			} else if r.Chance(lossy) {
 				how = "body" + loss()
 			}
 			if how != "abort" && r.Chance(50) {
@@ -887,11 +1139,102 @@ func c11RemRun(out *vh.Out, t *testing.T, cfg vlim.Cfg, r *vh.Rng, fixed []strin
 			}
 			return how
 		}
+		if refresh {
+			// rounds of: (A) the world is up, a delivery opens a connection to every domain and ends — the
+			// connections go to the pool; (B) the world changes; the next delivery gets the pooled connections
+			// and the next hop ends the reused session at MAIL / refuses MAIL / accepts; the same domain again
+			// (the pool is empty now: what a new connection meets is the world as it is); end
+			n = 0
+			addr := func() int { return apool[r.Intn(len(apool))] }
+			flag := func() string {
+				if x := r.Intn(100); x < 6 {
+					return ".so"
+				} else if x < 9 {
+					return ".rt"
+				}
+				return ""
+			}
+			co := func(id, dd int) int {
+				if c.newConnOK(c.ds[id], dd) {
+					return 1
+				}
+				return 0
+			}
+			bg := 0
+			if r.Chance(30) {
+				// another delivery stays open over the rounds (holds its own connection and permit)
+				bg = next
+				next++
+				if ok = c.exec(fmt.Sprintf("s.%d.%d.%d", bg, addr(), dpool[r.Intn(nDom)])); ok && c.ds[bg] != nil {
+					dd := dpool[r.Intn(nDom)]
+					ok = c.exec(fmt.Sprintf("a.%d.%d.%d.1", bg, dd, co(bg, dd)))
+				}
+			}
+			for round := 2 + r.Intn(3); round > 0 && ok; round-- {
+				if c.w.Kind() != "ok" {
+					ok = ok && c.exec("w.ok")
+				}
+				id := next
+				next++
+				if ok = ok && c.exec(fmt.Sprintf("s.%d.%d.%d", id, addr(), dpool[r.Intn(nDom)])); !ok {
+					break
+				}
+				if c.ds[id] != nil {
+					for _, dd := range dpool[:nDom] {
+						ok = ok && c.exec(fmt.Sprintf("a.%d.%d.%d.1", id, dd, co(id, dd)))
+					}
+					ok = ok && c.exec(fmt.Sprintf("x.%d.%s", id, r.Pick("commit", "abort", "commit.abort")))
+				}
+				if r.Chance(75) {
+					ok = ok && c.exec("w."+c11WorldKinds[1+r.Intn(len(c11WorldKinds)-1)])
+				}
+				id = next
+				next++
+				if ok = ok && c.exec(fmt.Sprintf("s.%d.%d.%d%s", id, addr(), dpool[r.Intn(nDom)], flag())); !ok {
+					break
+				}
+				if c.ds[id] == nil {
+					continue
+				}
+				for _, dd := range dpool[:nDom] {
+					for k := 1 + r.Intn(2); k > 0 && ok; k-- {
+						mo, note := 1, ""
+						switch x := r.Intn(100); {
+						case x < 30:
+							mo, note = 0, ".mail"+loss()
+						case x < 55:
+							mo, note = 0, ".omail"+loss()
+						case x < 70:
+							mo = 0
+						case x < 80:
+							note = ".rcpt" + loss()
+						}
+						ok = c.exec(fmt.Sprintf("a.%d.%d.%d.%d%s", id, dd, co(id, dd), mo, note))
+					}
+				}
+				if r.Chance(25) {
+					ok = ok && c.exec("w."+c11WorldKinds[r.Intn(len(c11WorldKinds))])
+				}
+				ok = ok && c.exec(fmt.Sprintf("x.%d.%s", id, end()))
+			}
+			if bg != 0 && ok && c.ds[bg] != nil {
+				ok = c.exec(fmt.Sprintf("x.%d.%s", bg, end()))
+			}
+		}
 		for i := 0; i < n && ok; i++ {
 			var ids []int
 			for k := 1; k < next; k++ {
 				if c.ds[k] != nil {
 					ids = append(ids, k)
+				}
+			}
+			if r.Chance(worldPr) {
+				kind := "ok"
+				if c.w.Kind() == "ok" || r.Chance(40) {
+					kind = c11WorldKinds[1+r.Intn(len(c11WorldKinds)-1)]
+				}
+				if ok = c.exec("w." + kind); !ok {
+					break
 				}
 			}
 			x := r.Intn(100)
@@ -920,7 +1263,7 @@ func c11RemRun(out *vh.Out, t *testing.T, cfg vlim.Cfg, r *vh.Rng, fixed []strin
 						dd = badDom()
 					}
 				} else if r.Chance(12) {
-					if pool == 0 && r.Chance(lossy) {
+					if pool == 0 && c.w.Kind() == "ok" && r.Chance(lossy) {
 						// reachable domain, connection dead before the greeting (only without a pool: a pooled
 						// connection would be used without dialling)
 						co, note = 0, "."+r.Pick("conndrop", "conntmo")
@@ -928,13 +1271,18 @@ func c11RemRun(out *vh.Out, t *testing.T, cfg vlim.Cfg, r *vh.Rng, fixed []strin
 						dd, co = badDom(), 0
 					}
 				}
-				if r.Chance(25) {
+				// the world is down: no new connection — a connection of the delivery or of the pool still serves
+				down := false
+				if co == 1 && !c.newConnOK(c.ds[id], dd) {
+					co, down = 0, true
+				}
+				if r.Chance(mailFailPr) {
 					mo = 0
-					if co == 1 && r.Chance(lossy) {
-						note = ".mail" + loss()
+					if (co == 1 || down) && r.Chance(lossy) {
+						note = r.Pick(".mail", ".mail", ".omail") + loss()
 					}
 				}
-				if co == 1 && mo == 1 {
+				if (co == 1 || down) && mo == 1 {
 					switch {
 					case r.Chance(lossy):
 						note = ".rcpt" + loss()
@@ -1094,6 +1442,12 @@ func c11RemConcCase(out *vh.Out, t *testing.T, be *c11Backend, cfg vlim.Cfg, see
 	tgt.connReuseLimit = []int{0, 2, 10}[cr.Intn(3)]
 	lossy := []int{0, 20, 50}[cr.Intn(3)]
 	out.Stat(fmt.Sprintf("remconc:pool:%d:lossy:%d", tgt.connReuseLimit, lossy))
+	// an MX world that changes under the deliveries (derived from the seed as well): every worker now and then
+	// sets what NEW connections meet from then on — DNS answers gone, connect refused, dead before the greeting,
+	// policy failure — or repairs it, while connections opened earlier are in use and in the pool
+	world := c11W(tgt)
+	flaky := []int{0, 0, 12, 35}[cr.Intn(4)]
+	out.Stat(fmt.Sprintf("remconc:flaky-world:%d", flaky))
 	modes := []int32{c11F421, c11F421c, c11Drop, c11Tmo}
 	var mu sync.Mutex
 	hold := [4]map[int]int{{}, {}, {}, {}}
@@ -1149,6 +1503,13 @@ func c11RemConcCase(out *vh.Out, t *testing.T, be *c11Backend, cfg vlim.Cfg, see
 						}
 					}
 					be.mailMode.Store(mm)
+					if flaky != 0 && r.Chance(flaky) {
+						kind := "ok"
+						if r.Chance(60) {
+							kind = c11WorldKinds[1+r.Intn(len(c11WorldKinds)-1)]
+						}
+						world.Set(kind)
+					}
 					local := "rcpt"
 					if r.Chance(lossy) {
 						local += r.Pick("421", "421c", "drop", "tmo", "rej")
